@@ -310,3 +310,153 @@ Proof.
     apply Hsm. eapply Permutation_in; [apply H1 | exact He]. }
   apply new_run_independent; auto.
 Qed.
+
+(* ---------------------------------------------------------------- new WITHOUT -getset: no guard on embedding *)
+Lemma new_stale_flag : forall c st v T d s st', new_make c st v T = MOk d s st' -> s = c_getset c.
+Proof.
+  intros c st v T d s st' H. unfold new_make, new_make_gen in H.
+  destruct (has_prefix "_" T); [discriminate|].
+  destruct (find_struct v T) as [[[fn h] sx]|]; [|discriminate].
+  unfold new_finish in H.
+  match type of H with context [make_getset_loop ?a ?b ?cc ?dd ?e] => destruct (make_getset_loop a b cc dd e) as [[[[gl sl] gi] si] ms] end.
+  injection H as _ <- _. reflexivity.
+Qed.
+
+Theorem new_noget_aio_is_concatenation : forall c (cT : string -> cmd) hw disk fmap o st st' types sm,
+  c_getset c = false ->
+  (forall T, c_getset (cT T) = c_getset c /\ c_json (cT T) = c_json c /\ c_opt (cT T) = c_opt c) ->
+  separate c = false ->
+  confirm_types (list_types_of CNew) c o (mk_view hw disk []) = Some (types, fmap) ->
+  generate (new_make c) nrender (list_types_of CNew) c o hw disk st = Some sm ->
+  let fs := same_dir_files new_make nrender cT hw disk st' types in
+  match sm with
+  | [] => fs = []
+  | [(n, m)] =>
+      a_decls m = flat_map a_decls fs /\ a_imports m = dedup (flat_map a_imports fs) /\
+      a_stray m = flat_map (fun f => strays (a_decls f)) fs /\ n = nm c hw fmap ""
+  | _ => False
+  end.
+Proof.
+  intros c cT hw disk fmap o st st' types sm Hg HcT Hsep Hconf Hgen.
+  exact (aio_is_concat_same_dir new_make nrender new_same_out (list_types_of CNew) c cT
+           (fun T s v => same_sim_body _ _ _ _ (new_cmd_sim c (cT T) s v T (eq_sym (proj1 (HcT T))) (eq_sym (proj1 (proj2 (HcT T)))) (eq_sym (proj2 (proj2 (HcT T))))))
+           (fun s v T d b s' H => eq_trans (new_stale_flag c s v T d b s' H) Hg) hw disk fmap Hsep o st st' types sm Hconf Hgen).
+Qed.
+
+Theorem new_noget_permutation : forall c c' hw disk o st st',
+  c_getset c = false -> c_getset c' = false ->
+  specified c = true -> specified c' = true ->
+  Permutation (c_types c) (c_types c') -> c_file c = c_file c' -> c_sub c = c_sub c' ->
+  c_star c = false -> c_star c' = false -> c_json c = c_json c' -> c_opt c = c_opt c' ->
+  match generate (new_make c) nrender (list_types_of CNew) c o hw disk st,
+        generate (new_make c') nrender (list_types_of CNew) c' o hw disk st' with
+  | Some sm, Some sm' => map nb (listing sm) = map nb (listing sm')
+  | None, None => True
+  | _, _ => False
+  end.
+Proof.
+  intros c c' hw disk o st st' Hg Hg' Hs Hs' Hp Hf Hsub H1 H2 Hj Ho.
+  apply (permutation_nostale new_make nrender new_same_out hw disk (list_types_of CNew) c c' o st st'
+           (fun s v T d b s' H => eq_trans (new_stale_flag c s v T d b s' H) Hg)
+           (fun s v T d b s' H => eq_trans (new_stale_flag c' s v T d b s' H) Hg')); auto.
+  intros T st0 v. apply new_cmd_sim; auto. congruence.
+Qed.
+
+(* ---------------------------------------------------------------- new without -getset over directories without accessor interfaces *)
+Definition no_iface_decls (g : list adecl) : Prop := forall d, In d g -> match d_kind d with KIface _ _ _ => False | _ => True end.
+
+Lemma find_iface_none : forall v n, no_iface_decls (pv_gen v) -> find_iface v n = None.
+Proof.
+  intros v n H. unfold find_iface.
+  destruct (find (fun d => (d_name d =? n) && match d_kind d with KIface _ _ _ => true | _ => false end) (pv_gen v)) as [d|] eqn:E; auto.
+  apply find_some in E. destruct E as [Hin Hb]. specialize (H d Hin).
+  destruct (d_kind d); try contradiction; rewrite andb_false_r in Hb; discriminate.
+Qed.
+
+Lemma make_getset_loop_noiface : forall v v' g s fs once,
+  no_iface_decls (pv_gen v) -> no_iface_decls (pv_gen v') ->
+  make_getset_loop v g s fs once = make_getset_loop v' g s fs once.
+Proof.
+  intros v v' g s fs. induction fs as [|f fs IH]; intros once H H'; cbn [make_getset_loop]; auto.
+  destruct (smem (fe_name f) once); auto.
+  rewrite (IH (fe_name f :: once) H H').
+  rewrite !(find_iface_none v _ H), !(find_iface_none v' _ H'). rewrite !andb_false_r. cbn. reflexivity.
+Qed.
+
+Lemma expand_hand : forall fuel v v' depth tname ptr isnew acc, pv_hand v = pv_hand v' ->
+  expand fuel v depth tname ptr isnew acc = expand fuel v' depth tname ptr isnew acc.
+Proof.
+  induction fuel as [|fu IH]; intros v v' depth tname ptr isnew acc H; cbn [expand]; auto.
+  rewrite (find_struct_hand v v' tname H). destruct (find_struct v' tname) as [[[fn h] s]|]; auto.
+  apply fold_left_ext. intros a it. destruct it; auto.
+Qed.
+
+Lemma extract_top_hand : forall fuel c v v' s, pv_hand v = pv_hand v' -> extract_top fuel c v s = extract_top fuel c v' s.
+Proof.
+  intros fuel c v v' s H. unfold extract_top. apply fold_left_ext. intros a it. destruct it; auto. apply expand_hand. exact H.
+Qed.
+
+(* with no accessor interface among the generated declarations, MakeData of `new` is a function of the hand-written part *)
+Lemma new_make_noiface : forall c st v v' T,
+  pv_hand v = pv_hand v' -> no_iface_decls (pv_gen v) -> no_iface_decls (pv_gen v') ->
+  new_make c st v T = new_make c st v' T.
+Proof.
+  intros c st v v' T Hh H H'. unfold new_make, new_make_gen.
+  rewrite (find_struct_hand v v' T Hh). destruct (has_prefix "_" T); auto.
+  destruct (find_struct v' T) as [[[fn h] s]|]; auto.
+  rewrite Hh, (extract_top_hand _ c v v' s Hh).
+  set (st2 := new_parse c (new_reset all_resets c st) s (extract_top (S (List.length (pv_hand v'))) c v' s)).
+  rewrite (make_getset_loop_noiface v v' (n_getter st2) (n_setter st2) (n_fields st2) [] H H'). reflexivity.
+Qed.
+
+Definition iface_free (disk : gfiles) : Prop := forall e, In e disk -> no_iface_decls (a_decls (snd e)).
+
+Lemma in_gen_decls_mk_view : forall hw disk d, In d (gen_decls (mk_view hw disk [])) -> exists e, In e disk /\ In d (a_decls (snd e)).
+Proof.
+  intros hw disk d H. unfold gen_decls in H. apply in_flat_map in H. destruct H as [[n fc] [Hin Hd]].
+  destruct fc as [h|a]; [destruct Hd|]. apply in_mk_view_gen in Hin. exists (n, a). split; auto.
+Qed.
+
+Lemma iface_free_view : forall hw disk, iface_free disk -> no_iface_decls (pv_gen (pview_of (mk_view hw disk []))).
+Proof.
+  intros hw disk H d Hd. cbn in Hd. apply in_gen_decls_mk_view in Hd. destruct Hd as [e [He Hde]]. exact (H e He d Hde).
+Qed.
+
+Definition erased (hw : list hfile) (c : cmd) : nstate -> pview -> string -> mres ndata nstate :=
+  fun st _ T => new_make c st {| pv_hand := hand_of hw; pv_gen := [] |} T.
+
+Lemma erased_blind : forall hw c H, blind_at H (erased hw c).
+Proof. intros hw c H st v v' T _ _. reflexivity. Qed.
+
+Lemma erased_same_out : forall hw c st1 st2 v T, same_out nrender (erased hw c st1 v T) (erased hw c st2 v T).
+Proof. intros. unfold erased. apply new_same_out. Qed.
+
+Lemma generate_erased : forall c hw disk o st,
+  c_getset c = false -> iface_free disk ->
+  generate (new_make c) nrender (list_types_of CNew) c o hw disk st =
+  generate (erased hw c) nrender (list_types_of CNew) c o hw disk st.
+Proof.
+  intros c hw disk o st Hg Hfree.
+  rewrite (generate_pinned new_make nrender hw disk c (list_types_of CNew) o st
+             (fun s v T d b s' H => eq_trans (new_stale_flag c s v T d b s' H) Hg)).
+  apply (generate_rel (pinned new_make hw disk c) nrender (erased hw c) nrender c hw disk).
+  intros st1 st2 ov T. unfold pinned, erased.
+  rewrite (new_make_noiface c st1 (pview_of (mk_view hw disk [])) {| pv_hand := hand_of hw; pv_gen := [] |} T).
+  - rewrite (new_make_state_indep c st1 st2). apply same_out_src, same_out_refl.
+  - cbn. apply hand_decls_mk_view.
+  - apply iface_free_view. exact Hfree.
+  - intros d [].
+Qed.
+
+(* C07 for new WITHOUT -getset, embedding allowed: whatever the directory holds, as long as it holds no accessor
+   interfaces (a run without -getset never writes any) and no selectable generated struct *)
+Theorem new_noget_unspecified_independent : forall o1 o2 c hw disk1 disk2 st1 st2,
+  c_getset c = false -> specified c = false ->
+  iface_free disk1 -> iface_free disk2 -> no_eligible_gen CNew disk1 -> no_eligible_gen CNew disk2 ->
+  generate (new_make c) nrender (list_types_of CNew) c o1 hw disk1 st1 =
+  generate (new_make c) nrender (list_types_of CNew) c o2 hw disk2 st2.
+Proof.
+  intros o1 o2 c hw disk1 disk2 st1 st2 Hg Hs Hf1 Hf2 Hn1 Hn2.
+  rewrite (generate_erased c hw disk1 o1 st1 Hg Hf1), (generate_erased c hw disk2 o2 st2 Hg Hf2).
+  apply (generate_blind_history (erased hw c) nrender (erased_same_out hw c) hw (erased_blind hw c _) CNew c Hs); auto.
+Qed.
